@@ -165,12 +165,16 @@ type hijackWatch struct {
 	source  watch.Interface
 	result  chan watch.Event
 	stopped bool
+	// done is closed by Stop so that the relay goroutine does not block for
+	// ever on a consumer that has stopped reading.
+	done chan struct{}
 }
 
 func newHijackWatch(source watch.Interface) watch.Interface {
 	w := &hijackWatch{
 		source: source,
 		result: make(chan watch.Event),
+		done:   make(chan struct{}),
 	}
 	go w.receive()
 	return w
@@ -181,6 +185,7 @@ func (w *hijackWatch) Stop() {
 	defer w.Unlock()
 	if !w.stopped {
 		w.stopped = true
+		close(w.done)
 		w.source.Stop()
 	}
 }
@@ -195,19 +200,23 @@ func (w *hijackWatch) receive() {
 			if !ok {
 				return
 			}
-			asts, ok := event.Object.(*asv1.StatefulSet)
-			if !ok {
-				// e.g. an Error event carrying a *metav1.Status: relay it as it is
-				w.result <- event
-				continue
+			out := event
+			if asts, ok := event.Object.(*asv1.StatefulSet); ok {
+				sts, err := ToBuiltinStatefulSet(asts)
+				if err != nil {
+					panic(err)
+				}
+				out = watch.Event{
+					Type:   event.Type,
+					Object: sts,
+				}
 			}
-			sts, err := ToBuiltinStatefulSet(asts)
-			if err != nil {
-				panic(err)
-			}
-			w.result <- watch.Event{
-				Type:   event.Type,
-				Object: sts,
+			// (an event that does not carry a StatefulSet, e.g. an Error event
+			// with a *metav1.Status, is relayed as it is)
+			select {
+			case w.result <- out:
+			case <-w.done:
+				return
 			}
 		}
 	}
